@@ -564,3 +564,31 @@ def runCallsFut {σ ι β ρ ε} (f : Icpt σ) (inner : InnerD ι β ρ ε) :
     (s', i', (c.innerSaw, c.fut) :: rest)
 
 end Interceptor
+
+/-! ### appended after Lean review round 4 (lr5-5): kept futures polled by an explicit schedule -/
+namespace Interceptor
+open HMapLite HttpLite
+
+/-- Futures that were kept (all calls made first) and are polled later by a SCHEDULE: `sched` lists,
+poll by poll, which kept future (by index) is polled next — any interleaving, any number of polls
+of each, including polls of a future that has already completed.  `ResponseFuture::poll(self:
+Pin<&mut Self>, cx)` has the future alone in hand (no service, no sibling future), so a poll
+replaces that future by its successor and leaves the others as they are; every `Ready` is logged
+with the index of the future that produced it.  An index that names no kept future is skipped. -/
+def pollSchedule (add : GStatus → Hdrs → Option Hdrs) {ρ ε} :
+    List (RespFuture ρ ε) → List Nat → List (Nat × Outcome ρ ε)
+  | _, [] => []
+  | futs, k :: ks =>
+    match futs[k]? with
+    | none => pollSchedule add futs ks
+    | some fut =>
+      (match (fut.pollWith add).2 with
+       | some o => [(k, o)]
+       | none => []) ++ pollSchedule add (futs.set k (fut.pollWith add).1) ks
+
+/-- What the owner of kept future `k` gets: the first `Ready` that future produced (a future is not
+polled again by a well-behaved owner once it was `Ready`; later log entries are what a misuse sees). -/
+def firstReady {ρ ε} (k : Nat) (log : List (Nat × Outcome ρ ε)) : Option (Outcome ρ ε) :=
+  (log.find? (fun e => e.1 == k)).map (·.2)
+
+end Interceptor
